@@ -4,10 +4,12 @@
 mod consts;
 mod fam_curve;
 mod fam_fx;
+mod fam_integr;
 mod fam_panic;
 mod mon;
 mod mon_c15;
 mod mon_c18;
+mod mon_c20;
 mod rng;
 mod stubs;
 
@@ -43,6 +45,7 @@ fn main() {
             match fam {
                 "fx" => fam_fx::gen(&mut rng, n, &mut out),
                 "curve" => fam_curve::gen(&mut rng, n, &mut out),
+                "integr" => fam_integr::gen(&mut rng, n, &mut out),
                 "panic" => fam_panic::gen(&mut rng, n, &mut out),
                 _ => {
                     eprintln!("unknown family {}", fam);
@@ -65,6 +68,7 @@ fn main() {
             match prop {
                 "C15" => mon_c15::run(&mut rng, n, &mut rep),
                 "C18" => mon_c18::run(&mut rng, n, &mut rep),
+                "C20" => mon_c20::run(&mut rng, n, &mut rep),
                 _ => {
                     eprintln!("no monitor for {}", prop);
                     std::process::exit(2);
